@@ -1,3 +1,5 @@
+from vlib import schema_gen_extra
+
 ID = "C09"
 CLUSTER = "schema"
 EXTRACT_V = "ExtractSchema.v"
@@ -23,7 +25,7 @@ LEVEL_TEXT = ("Theorems in coq/Props/C09.v about coq/Schema/Sem.v (impl-model of
 LEVEL_NOTE = ("Trusted: Coq kernel, extraction, Go harness (generators, routes, dumper), hand-written model tied by "
               "the differential run. Schemas are finite trees; map keys are strings; ints stay within int64 except "
               "in the fixed int8 family; a repeated field of slice/map/struct Go type (bindnode merges old and new "
-              "contents) is outside the modelled 'last wins' form and is not generated. Generated code: C13.")
+              "contents) is outside the modelled 'last wins' form and is not generated. Generated code: a share of the trees runs on a freshly generated package (records buildg).")
 TRUSTED = ["bindnode assemblers (node.go, repr.go) hand-modelled in coq/Schema/Sem.v; tied by correspondence only",
            "dag-cbor / dag-json decoders are only a route for the same call sequence (their own behaviour is C03/C04)"]
 RULE = ("random well-formed schemas x {type level, representation level} x (2 conforming + 10 mutated trees: dropped, "
@@ -40,3 +42,8 @@ def classify(fs):
 
 def nontrivial(fs):
     return len(fs[2]) > 8
+
+
+def extra(ctx):
+    # both engines: a share of the cases runs on code generated afresh from the working tree's generator
+    return schema_gen_extra.compiles("c09", ctx)[1]
